@@ -200,25 +200,38 @@ Proof.
   destruct jr, pp; rewrite ?ppd_id; exact E1.
 Qed.
 
-(** ** the engine's stacked filters *)
-Lemma semq_no_stack : forall G p, no_stack p = true ->
-  fst (semq G p) = sem G p /\ (is_filter p = false -> snd (semq G p) = sem G p).
+(** ** the engine's selection vectors: stacked filters compose (df57ccb) *)
+Lemma semq_sem : forall G p, fst (semq G p) = sem G p.
 Proof.
-  intros G p; induction p; cbn [no_stack semq sem is_filter fst snd]; intros NS;
+  intros G p; induction p; cbn [semq sem fst]; try reflexivity;
+    try (rewrite IHp; reflexivity); try (rewrite IHp1, IHp2; reflexivity).
+  (* Filter *)
+  destruct (semq G p) as [vis ph]. cbn [fst] in IHp. subst vis.
+  destruct (filter (passes G pred) (sem G p)); reflexivity.
+Qed.
+
+Theorem sem_e_sem : forall G p, sem_e G p = sem G p.
+Proof. intros. unfold sem_e. apply semq_sem. Qed.
+
+(** ** before df57ccb: the inner predicate of a stack was lost *)
+Lemma semq_pre_no_stack : forall G p, no_stack p = true ->
+  fst (semq_pre G p) = sem G p /\ (is_filter p = false -> snd (semq_pre G p) = sem G p).
+Proof.
+  intros G p; induction p; cbn [no_stack semq_pre sem is_filter fst snd]; intros NS;
     try (split; [reflexivity|reflexivity]);
     try (destruct (IHp NS) as [-> _]; split; reflexivity).
   - (* Filter *)
     apply andb_true_iff in NS as [NF NS]. apply negb_true_iff in NF.
     destruct (IHp NS) as [E1 E2]. specialize (E2 NF).
-    destruct (semq G p) as [vis ph]. cbn [fst snd] in *. subst.
+    destruct (semq_pre G p) as [vis ph]. cbn [fst snd] in *. subst.
     split; [|discriminate]. destruct (sem G p); reflexivity.
   - apply andb_true_iff in NS as [N1 N2]. destruct (IHp1 N1) as [-> _], (IHp2 N2) as [-> _]. split; reflexivity.
   - apply andb_true_iff in NS as [N1 N2]. destruct (IHp1 N1) as [-> _], (IHp2 N2) as [-> _]. split; reflexivity.
   - apply andb_true_iff in NS as [N1 N2]. destruct (IHp1 N1) as [-> _], (IHp2 N2) as [-> _]. split; reflexivity.
 Qed.
 
-Theorem sem_e_no_stack : forall G p, no_stack p = true -> sem_e G p = sem G p.
-Proof. intros. unfold sem_e. apply semq_no_stack; assumption. Qed.
+Theorem sem_e_pre_no_stack : forall G p, no_stack p = true -> sem_e_pre G p = sem G p.
+Proof. intros. unfold sem_e_pre. apply semq_pre_no_stack; assumption. Qed.
 
 (** ** witnesses *)
 Open Scope string_scope.
@@ -264,6 +277,11 @@ Definition pW6 : plan :=
     (PJoin JCross [] (PScan "c" (Some "C"%string))
        (PFilter (EHasLabel "b" "B") (PExpand "a" "b" None DOut (Some "R"%string) (PScan "a" (Some "A"%string))))).
 
+(** MATCH (a:A {v: 1}) WHERE a.v >= 0: a property map under a WHERE *)
+Definition pW7 : plan :=
+  PFilter (EBin OGe (EProp "a" "v") (ELit (VInt 0)))
+    (PFilter (EBin OEq (EProp "a" "v") (ELit (VInt 1))) (PScan "a" (Some "A"%string))).
+
 Lemma length_neq_not_perm : forall (l1 l2 : list row), List.length l1 <> List.length l2 -> ~ Permutation l1 l2.
 Proof. intros l1 l2 H P. apply H, Permutation_length, P. Qed.
 
@@ -302,19 +320,32 @@ Proof.
   exists gW, bW5, aW5. repeat split; try (vm_compute; reflexivity). vm_compute. discriminate.
 Qed.
 
-Theorem engine_stack_refuted_l : exists G p,
+Theorem engine_stack_pre_refuted_l : exists G p,
   uniform p = true /\ k_push p = false /\ no_stack p = true /\ no_stack (pfd p) = false /\
-  sem G (pfd p) = sem G p /\ List.length (sem_e G (pfd p)) <> List.length (sem_e G p).
+  sem G (pfd p) = sem G p /\ List.length (sem_e_pre G (pfd p)) <> List.length (sem_e_pre G p).
 Proof.
   exists gW, pW6. repeat split; try (vm_compute; reflexivity). vm_compute. discriminate.
 Qed.
 
-(** with the engine's filters: wherever neither plan stacks filters *)
-Theorem pfd_sound_engine : forall G p,
+(** ... and a stack in the query itself lost its inner predicate under every switch combination *)
+Theorem engine_stack_pre_refuted_plain_l : exists G p,
+  List.length (sem_e_pre G p) <> List.length (sem G p).
+Proof. exists gW, pW7. vm_compute. discriminate. Qed.
+
+(** before df57ccb: wherever neither plan stacked filters *)
+Theorem pfd_sound_engine_pre : forall G p,
   uniform p = true -> k_push p = false -> no_stack p = true -> no_stack (pfd p) = true ->
-  sem_e G (pfd p) = sem_e G p.
+  sem_e_pre G (pfd p) = sem_e_pre G p.
 Proof.
-  intros G p U K N1 N2. rewrite !sem_e_no_stack by assumption. apply pfd_sound; [assumption|].
+  intros G p U K N1 N2. rewrite !sem_e_pre_no_stack by assumption. apply pfd_sound; [assumption|].
+  unfold k_push in K. now apply negb_false_iff in K.
+Qed.
+
+(** with the engine's filters as they are now: everywhere outside k_push *)
+Theorem pfd_sound_engine : forall G p,
+  uniform p = true -> k_push p = false -> sem_e G (pfd p) = sem_e G p.
+Proof.
+  intros G p U K. rewrite !sem_e_sem. apply pfd_sound; [assumption|].
   unfold k_push in K. now apply negb_false_iff in K.
 Qed.
 
